@@ -24,9 +24,9 @@ TEMPLATES = {
 LEVELS = {
     'quick': [
         {'name': 'L1-N3-M2-K2', 'N': 3, 'M': 2, 'K': 2, 'namings': ['id'], 'budget_s': 60},
-        {'name': 'L2-N4-M1-K2', 'N': 4, 'M': 1, 'K': 2, 'namings': ['id'], 'budget_s': 60},
+        {'name': 'L2-N4-M1-K2', 'N': 4, 'M': 1, 'K': 2, 'namings': ['id'], 'constr': 1, 'budget_s': 60},
         {'name': 'L3-N4-M2-K1', 'N': 4, 'M': 2, 'K': 1, 'namings': ['rev'], 'budget_s': 120},
-        {'name': 'L4-TN-M1-K2', 'templates': ['TN1', 'TN2'], 'M': 1, 'K': 2, 'namings': ['id', 'rev'], 'budget_s': 40},
+        {'name': 'L4-TN-M1-K2', 'templates': ['TN1', 'TN2'], 'M': 1, 'K': 2, 'namings': ['id', 'rev'], 'constr': 1, 'budget_s': 40},
         {'name': 'L6-plant-K5', 'fixed': ['plant', 'plant_s'], 'K': 5, 'events': 'abcdefg', 'namings': ['id'], 'M': 9, 'budget_s': 60},
         {'name': 'L5-TN3-M2-K3', 'templates': ['TN3'], 'M': 2, 'K': 3, 'namings': ['id', 'rev'], 'nevents': 1, 'hist_target': 1,
          'guards': 0, 'budget_s': 60},
@@ -87,7 +87,9 @@ def harness(g, chart, level, canary=False):
     namings = level.get('namings', ['id'])
     naming = namings[g.choice('naming', len(namings))]
     can_freeze = bool(level.get('guards', 0 if level.get('fixed') else 1))
-    inst = Inst(g, chart, naming, guards=can_freeze)
+    cons = cg.constructions(chart) if level.get('constr') else [None]
+    moved = cons[g.choice('constr', len(cons))] if len(cons) > 1 else None
+    inst = Inst(g, chart, naming, guards=can_freeze, moved=moved)
     cm, it = inst.cm, inst.it
     hist = []
 
